@@ -775,8 +775,9 @@ def related_sum_case(rep, rng, subseed):
         m = np.array(data, dtype=complex).reshape(n, n)
         if herm:
             m = m + m.conj().T
-        arr = m.reshape(tuple(dims + dims) or (1,))
-        return tensor.Box(name, D, D, arr if rng.random() < 0.5 else arr.tolist()), m
+        form = rng.choice(tl.ARRAY_FORMS)      # container, shape and memory layout of `data`
+        rep.count("related-sums:box_data_form:" + form)
+        return tensor.Box(name, D, D, tl.array_in_form(dims, dims, list(m.reshape(-1)), form)), m
     f, mf = rand_box("f")
     g, mg = rand_box("f" if rng.random() < 0.5 else "g")          # same name, other entries
     h, mh = rand_box("h", herm=True)
